@@ -36,11 +36,22 @@ class Case:
         self.proj = self.base + '/proj'
         self.env = {'VERIF_LOG': self.base + '/log', 'VERIF_MARK': self.base + '/mark'}
         self.env.update(wrapper_env())
+        # a `tar` in front of the real one: extracts only the first member and fails / kills Bob when a marker file asks for it
+        self.env['PATH'] = self.base + '/fakebin:' + e1.BASE_ENV['PATH']
         self.D = e1.Dir(self.proj)
         self.snap = self.base + '/snap-' + mode
 
     def run(self, v, extra_env=None):
         open(self.base + '/log', 'w').close()
+        fake = self.base + '/fakebin/tar'
+        if not os.path.exists(fake):
+            os.makedirs(self.base + '/fakebin', exist_ok=True)
+            with open(fake, 'w') as f:
+                f.write('#!/bin/bash\nM=%s/mark\n'
+                        'if [ -e "$M/fail-extract" ]; then /bin/tar "$@" %s; exit 2; fi\n'
+                        'if [ -e "$M/kill-extract" ]; then /bin/tar "$@" %s; kill -9 $PPID; sleep 2; exit 2; fi\n'
+                        'exec /bin/tar "$@"\n' % (self.base, w1.ARCHIVE_MEMBERS[0], w1.ARCHIVE_MEMBERS[0]))
+            os.chmod(fake, 0o755)
         env = dict(self.env); env.update(extra_env or {})
         rc, out = e1.run_bob(self.proj, c01.MODES[self.mode] + w1.args(v, self.base + '/dl'), env, wrapper=wrapper_cmd())
         return rc, out, e1.read_log(self.base + '/log')
@@ -83,6 +94,8 @@ def case_worker(job):
     kind = fault[0]
     if kind in ('fail', 'killscript'):
         open(os.path.join(c.base, 'mark', ('fail-' if kind == 'fail' else 'kill-') + fault[1]), 'w').close()
+    elif kind == 'seq':
+        pass            # driven below, one aborted invocation per element
     elif kind == 'urlmissing':
         w1.downloads(c.base + '/dl', missing=(v['urlsrc'],))
     elif kind == 'killsave':
@@ -90,12 +103,32 @@ def case_worker(job):
     elif kind == 'count':
         extra['VERIF_COUNT_SAVES'] = c.base + '/saves'
         if os.path.exists(c.base + '/saves'): os.unlink(c.base + '/saves')
-    rc, out, log1 = c.run(v, extra)
-    nrun += 1
+    if kind != 'seq':
+        rc, out, log1 = c.run(v, extra)
+        nrun += 1
+    else:
+        rc, log1 = 1, []
     if kind == 'count':
         n = int(open(c.base + '/saves').read()) if os.path.exists(c.base + '/saves') else 0
         return job[:5], nrun, [], n
     aborted = rc != 0
+    if kind == 'seq':
+        # consecutive aborts: each further invocation is aborted by the next fault of the sequence
+        allab = True
+        for i, fl in enumerate(fault[1:]):
+            for f in os.listdir(c.base + '/mark'): os.unlink(os.path.join(c.base + '/mark', f))
+            try: os.unlink(os.path.join(c.proj, '.bob-state.lock'))
+            except FileNotFoundError: pass
+            extra = {}
+            if fl[0] in ('fail', 'killscript'):
+                open(os.path.join(c.base, 'mark', ('fail-' if fl[0] == 'fail' else 'kill-') + fl[1]), 'w').close()
+            elif fl[0] == 'killsave':
+                extra['VERIF_KILL_AT_SAVE'] = '%d:%s' % (fl[1], fl[2])
+            rc, out, lg = c.run(v, extra)
+            nrun += 1
+            log1 = log1 + lg
+            allab = allab and rc != 0
+        aborted = allab
     viol = []
     # recovery
     w1.downloads(c.base + '/dl')
@@ -166,6 +199,37 @@ def run(ctx):
                 jobs.append((m, p, e, ('urlmissing',), None))
                 jobs.append((m, p, e, ('urlmissing',), e))
                 jobs.append((m, p, e, ('fail', 'lib-build'), None))
+        # the extraction of a downloaded archive is aborted half way (extractor fails / Bob dies while it runs): when the
+        # archive changes (urlsrc with dl present) and when the dl package appears for the first time (lib2)
+        for p, e in ((('lib2',), 'urlsrc'), ((), 'lib2'), (('urlsrc',), 'lib2')):
+            for fk in ('fail', 'killscript'):
+                jobs.append((m, p, e, (fk, 'extract'), None))
+                jobs.append((m, p, e, (fk, 'extract'), e))
+        # checkout scripts that fail / die after partial output (the scripted part of a checkout, next to an SCM)
+        for p, e, st in [((), 'coscript', 'lib-checkout'), ((), 'srcmod', 'lib-checkout'), ((), 'srcadd', 'lib-checkout'),
+                         ((), 'lib2', 'lib2-checkout'), (('lib2',), 'coscript', 'lib2-checkout')]:
+            jobs.append((m, p, e, ('fail', st), None))
+            jobs.append((m, p, e, ('fail', st), e))
+            jobs.append((m, p, e, ('killscript', st), None))
+        # several consecutive aborts before the successful run: every ordered pair of faults along the path of the edit
+        # (thorough: four edits, triples over four faults, and a kill at every save point followed by a failing step)
+        SEQ = [('fail', 'lib-checkout'), ('fail', 'lib-build'), ('killscript', 'lib-build'), ('fail', 'lib-package'), ('fail', 'app-build'), ('fail', 'root-package')]
+        for e in (['srcmod'] if quick else ['srcmod', 'coscript', 'libscript', 'twovar']):
+            for f1 in SEQ:
+                for f2 in SEQ:
+                    jobs.append((m, (), e, ('seq', f1, f2), None))
+        if not quick:
+            S4 = [SEQ[0], SEQ[2], SEQ[3], SEQ[4]]
+            for f1 in S4:
+                for f2 in S4:
+                    for f3 in S4:
+                        jobs.append((m, (), 'srcmod', ('seq', f1, f2, f3), None))
+            n = counts.get((m, (), 'libscript'))
+            for k in range(1, (n or 0) + 1):
+                jobs.append((m, (), 'libscript', ('seq', ('killsave', k, 'before'), ('fail', 'lib-package')), None))
+                jobs.append((m, (), 'libscript', ('seq', ('killsave', k, 'after'), ('killscript', 'lib-build')), None))
+    if ctx.opts.get('only'):      # debugging aid: restrict the case list (evidence then states exhaustive for that list only)
+        jobs = [j for j in jobs if ctx.opts['only'] in str(j)]
     vecs = set()
     for (m, p, e, f, a) in jobs:
         v = c01.apply(tuple(p) + (e,))
@@ -189,7 +253,7 @@ def run(ctx):
         rule='one case = (built state, next edit, fault) -> aborted incremental build -> lock removed, markers cleared, optional further edit -> normal build compared with the '
              'clean build of the final feature vector; non-trivial = cases where the fault really aborted the build',
         exhaustive=True, samples=[dict(edit='libscript', fault=['killsave', 3, 'before']), dict(edit='srcmod', fault=['fail', 'lib-build'], then='revert srcmod')],
-        bounds=dict(modes=modes, prefix_states=[list(p) for p in prefixes], edits=edits, fail_steps=FAIL_STEPS, kill_at_save='every save point 1..N, before and after, for edits %s' % killsave_edits,
+        bounds=dict(modes=modes, prefix_states=[list(p) for p in prefixes], edits=edits, fail_steps=FAIL_STEPS + ['lib-checkout', 'lib2-checkout', 'extract (tar of the url SCM)'], abort_sequences='all ordered pairs of 6 faults (thorough: 4 edits, triples of 4, kill at every save then a failing step)', kill_at_save='every save point 1..N, before and after, for edits %s' % killsave_edits,
                     saves_per_invocation=sorted(set(counts.values()))), cases=len(jobs), aborted=aborted),
         assumptions=['SIGKILL of the Bob process: page cache survives (process crash); torn state files are covered by C10',
                      'the user removes .bob-state.lock after a crash (documented)'])
